@@ -69,6 +69,8 @@ fn scenarios(thorough: bool) -> Vec<Scenario> {
         // the CA and in its published-object set, withdrawal
         // a command that is refused: all it writes is its audit record
         Scenario { name: "roa-add-refused", prefix: vec![], rejected: true, cold: false, before: vec![Op::Roa { ca: c(), add: vec!["10.0.3.0/24 => 65003".into()], del: vec![] }], op: Op::Roa { ca: c(), add: vec!["192.168.0.0/24 => 65000".into()], del: vec![] } },
+        // a CA is created (the first record of a new entity)
+        Scenario { name: "ca-created", prefix: vec![], rejected: false, cold: false, before: vec![], op: Op::InitCa { ca: "newca".into() } },
         Scenario { name: "parent-removed", prefix: vec![], rejected: false, cold: false, before: vec![], op: Op::RemoveParent { ca: "gc".into(), parent: c() } },
         Scenario { name: "snapshots-after-changes", prefix: vec![Op::Snapshots, Op::Roa { ca: c(), add: vec!["10.0.4.0/24 => 65000".into()], del: vec![] }], rejected: false, cold: false, before: vec![], op: Op::Snapshots },
         Scenario { name: "entitlement-shrink", prefix: vec![], rejected: false, cold: false, before: vec![], op: Op::Entitle { parent: p(), child: c(), res: r3("AS65000-AS65005", "10.0.0.0/16", "2001:db8::/48") } },
@@ -196,7 +198,7 @@ fn target_ca(op: &Op) -> String {
     match op {
         Op::Roa { ca, .. } | Op::AspaSet { ca, .. } | Op::BgpsecAdd { ca, .. } | Op::RollInit { ca } | Op::RollActivate { ca } | Op::UpdateId { ca } => ca.clone(),
         Op::Entitle { parent, .. } | Op::RemoveChild { parent, .. } | Op::Suspend { parent, .. } => parent.clone(),
-        Op::RemoveParent { ca, .. } => ca.clone(),
+        Op::RemoveParent { ca, .. } | Op::AddCa { ca } | Op::InitCa { ca } => ca.clone(),
         _ => "ca".into(),
     }
 }
@@ -251,6 +253,7 @@ fn recover_and_compare(w: &mut World, sc_op: &Op, twin: &Value, pre: &Value, pre
     if !fresh_instance {
         let live = observable(w);
         let live_len = len;
+        let live_loads = w.krill.ca_manager().get_ca(&ca(&target)).is_ok();
         let r = crate::checks::c04::what_if(w, move |w2| {
             let mut out = Vec::new();
             match World::reopen(cfg()) {
@@ -258,6 +261,12 @@ fn recover_and_compare(w: &mut World, sc_op: &Op, twin: &Value, pre: &Value, pre
                 Ok(fresh) => {
                     let stored = observable(&fresh);
                     let stored_len = history_len(&fresh, &target);
+                    // the entity the operation is about exists for the
+                    // running instance exactly if it exists in storage
+                    let stored_loads = fresh.krill.ca_manager().get_ca(&ca(&target)).is_ok();
+                    if stored_loads != live_loads {
+                        out.push(("live-differs-from-stored".into(), format!("CA {target}: the running instance {} it, a fresh instance on the same storage {}", if live_loads { "serves" } else { "does not know" }, if stored_loads { "loads it" } else { "does not find it" })));
+                    }
                     if stored != live {
                         out.push(("live-differs-from-stored".into(), format!("the running instance's state differs from what a fresh instance loads from storage: {}", first_diff(&live, &stored, ""))));
                     }
